@@ -10,6 +10,13 @@ def run(tier, seed):
     chk = vlib.Check(PID, tier, seed)
     quick = tier == "quick"
     vlib.tlc_check(chk, "H_Key abstract storage, exhaustive (2 units, 2 keys, 2 actors)", os.path.join(SPEC, "H_KeyMC.tla"), os.path.join(SPEC, "H_KeyMC.cfg"), timeout=600)
+    d = os.path.join(VERIF, "spec", "data")
+    vlib.tlc_check(chk, "KTableChain: one hash chain of a key table as coded (unlocked walk, locked re-scan and append, lock-free get), exhaustive",
+                   os.path.join(d, "KTableChainMC.tla"), os.path.join(d, "KTableChainMC.cfg"), timeout=300)
+    r = vlib.tlc_check(chk, "KTableChain without the re-scan under the lock (must be violated)", os.path.join(d, "KTableChainMC.tla"),
+                       os.path.join(d, "KTableChainNoRescan.cfg"), timeout=300, expect="violation")
+    if not r["violated"]:
+        raise vlib.Broken("the no-rescan variant of KTableChain is not rejected: the invariants are vacuous")
     optsets = [("tsize=%d" % t, "nes=%d" % n) for t in (1, 2, 4, 8) for n in (0, 1, 2)]
     vlib.history_check(chk, "d_key", ["keys"], "H_Key", quick, seed, nseeds_quick=150, nseeds_thorough=2500, optsets=optsets,
                        what="key/value history: get did not return the last value set, values leaked, or a destructor was missed / repeated / called for NULL",
